@@ -35,8 +35,9 @@ AllActions ==
   \cup {[op |-> "Upcast", x |-> x] : x \in Used}
   \cup {[op |-> "Clone", x |-> x, y |-> y] : x \in Used, y \in Dst}
   \cup {[op |-> "KidOwned", x |-> x, y |-> y] : x \in Used, y \in Dst}
-  \cup {[op |-> "KidBorrowed", x |-> x, which |-> w, m |-> m, a |-> a] :
-          x \in Used, w \in {"ref", "mut"}, m \in {"ra_get", "ra_mix", "ma_add", "ma_peek"}, a \in Args}
+  \cup {[op |-> "KidBorrowed", x |-> x, which |-> w, sel |-> k, m |-> m, a |-> a] :
+          x \in Used, w \in {"ref", "mut"}, k \in {0, 1, 2}, m \in {"ra_get", "ra_mix", "ma_add", "ma_peek"}, a \in Args}
+  \cup {[op |-> "KidView", x |-> x, m |-> m, a |-> a] : x \in Used, m \in {"ra_get", "ra_mix"}, a \in Args}
   \cup {[op |-> "Consume", x |-> x, m |-> m] : x \in Used, m \in ConsumeMethods}
   \cup {[op |-> "ConsumeEnd", y |-> y] : y \in Handle}
   \cup {[op |-> "Drop", x |-> x] : x \in Used}
